@@ -4,6 +4,7 @@ import base64
 import json
 import os
 import random
+import re
 
 LEVEL = 'fault_enumeration'
 RULE = ('(i) real -j children crashed at every crash point of a skeleton '
@@ -343,6 +344,24 @@ def gen_fake_layer(rng, kind):
         report = report[:-cut]
         exp['complete'] = False
         end = rng.choice([{'exit': 0}, {'signal': 9}])
+    elif kind == 'cut-in-multibyte':
+        # the report ends inside a multi-byte character of the last name
+        fails = fails + ['test_\xe9t\xe9 (pkg.T.test_\xe9t\xe9) #last']
+        exp['fails'] = fails
+        errs = []
+        exp['errs'] = errs
+        raw = emulate_report(ran, fails, errs, nskip).encode('utf-8')
+        k = raw.rindex('\xe9'.encode('utf-8')) + 1
+        report = raw[:k]
+        exp['complete'] = False
+        end = rng.choice([{'exit': 0}, {'signal': 9}])
+    elif kind == 'latin1-report':
+        # a child whose streams are not UTF-8 (PYTHONIOENCODING=latin-1)
+        fails = fails + ['test_caf\xe9 (pkg.T.test_caf\xe9) #l1']
+        exp['fails'] = fails
+        report = emulate_report(ran, fails, errs, nskip).encode('latin-1',
+                                                                'replace')
+        exp['fuzzy_names'] = True
     elif kind == 'cr-in-name':
         fails = ['test_cr (m.T.test_cr)\rsecond line'] + fails
         exp['fails'] = fails
@@ -354,6 +373,8 @@ def gen_fake_layer(rng, kind):
                      'errors and 0 skipped in 0.001 seconds.\n'])
     order = rng.choice(['out-err', 'err-out', 'mixed'])
     wr_out = {'fd': 1, 'data': b64(so)}
+    if isinstance(report, bytes):
+        pre, post = pre.encode('utf-8'), post.encode('utf-8')
     wr_err = {'fd': 2, 'data': b64(pre + report + post)}
     if order == 'out-err':
         steps = [wr_out, {'close': 1}, wr_err, {'close': 2}]
@@ -367,7 +388,8 @@ def gen_fake_layer(rng, kind):
 
 FAKE_KINDS = ['wellformed', 'wellformed', 'leading-noise', 'header-variants',
               'lookalike-before', 'lookalike-after', 'no-report',
-              'trailing-noise', 'glued-noise',
+              'trailing-noise', 'glued-noise', 'cut-in-multibyte',
+              'latin1-report',
               'fewer-names', 'unterminated-name', 'many', 'cr-in-name']
 
 
@@ -404,6 +426,14 @@ def judge_fake(ctx, w, exps, lm, label):
                       label=label)
     got_f = pv['fails']
     got_e = [n for n in pv['errs'] if not n.startswith('subprocess for')]
+    if any(e.get('fuzzy_names') for e in exps.values()):
+        # names from a child with another encoding cannot come through
+        # character for character: compare them with every non-ASCII
+        # character masked
+        def mask(names):
+            return sorted(re.sub(r'[^\x00-\x7f]', '?', n) for n in names)
+        want_f, want_e = mask(want_f), mask(want_e)
+        got_f, got_e = mask(got_f), mask(got_e)
     ctx.C('names_compared', len(got_f) + len(got_e))
     mech = None
     if sorted(want_f) != got_f or sorted(want_e) != sorted(got_e):
